@@ -399,4 +399,102 @@ def interferometerDecompose [DecidableEq A] [Neg A] (zero : A) (clip mod2pi : A 
   if triangular then interferometerCmds zero clip mod2pi identity dropId symmetric reg [] R (some BS1.reverse)
   else interferometerCmds zero clip mod2pi identity dropId symmetric reg BS1 R BS2
 
+/-! ### templates of the matrix operations, given their factors
+
+`GraphEmbed`, `BipartiteGraphEmbed`, `GaussianTransform`, `Gaussian`: what `_decompose` emits once the
+factorisation (Takagi / Bloch-Messiah / Williamson, C17) has produced its factors.  Matrices are opaque
+names; numbers are opaque values; every test the source makes on floats enters as a Boolean input. The
+options (`mesh`, `drop_identity`, `tol`, `vacuum`) and the keyword-over-attribute precedence are
+transcribed, because a dropped option does not change the state and is invisible to a state oracle. -/
+
+inductive XOp (A : Type)
+  | sgate (r φ : A)
+  | s2gate (r φ : A)
+  | interferometer (mat : String) (mesh : String) (dropId : Bool) (tol : A)
+  | gaussianTransform (mat : String) (vacuum : Bool)
+  | squeezed (r φ : A)
+  | thermal (nbar : A)
+  | vac
+  | xgate (x : A)
+  | zgate (p : A)
+  deriving Repr, DecidableEq
+
+structure XCmd (A : Type) where
+  op : XOp A
+  regs : List Nat
+  deriving Repr, DecidableEq
+
+/-- defaults of `Interferometer.__init__` (`mesh="rectangular"`, `drop_identity=True`, `tol`) -/
+structure IDefaults (A : Type) where
+  mesh : String
+  dropId : Bool
+  tol : A
+
+/-- `GraphEmbed._decompose`: `sq` = `(s, |s| ≥ tol)` per mode, `uId` = `allclose(U, 1)`, `kwMesh` = `kwargs.get("mesh")` -/
+def graphEmbedCmds (d : IDefaults A) (zero : A) (identity : Bool) (sq : List (A × Bool)) (uId : Bool)
+    (kwMesh : Option String) (reg : List Nat) : List (XCmd A) :=
+  if identity then []
+  else
+    (sq.zipIdx.flatMap fun (sb, n) => if sb.2 then [(⟨.sgate sb.1 zero, [rg reg n]⟩ : XCmd A)] else []) ++
+    (if uId then [] else [⟨.interferometer "U" (kwMesh.getD "rectangular") d.dropId d.tol, reg⟩])
+
+/-- `BipartiteGraphEmbed._decompose`: `sq` = `(s, |s| ≥ tol)`; `uId`/`vId` = `allclose(X, 1)` (then `X` is replaced by
+the exact identity `"I"`); keyword arguments take precedence over the attributes -/
+def bipartiteCmds [DecidableEq A] [Neg A] (zero : A) (identity selfDrop : Bool) (selfTol : A)
+    (kwMesh : Option String) (kwDrop : Option Bool) (kwTol : Option A)
+    (sq : List (A × Bool)) (uId vId : Bool) (reg : List Nat) : List (XCmd A) :=
+  let tol := kwTol.getD selfTol
+  let mesh := kwMesh.getD "rectangular"
+  let dropId := kwDrop.getD selfDrop
+  let N := sq.length
+  if !identity || !dropId then
+    (sq.zipIdx.flatMap fun (sb, m) =>
+      let s := if sb.2 then sb.1 else zero
+      if dropId && s = zero then [] else [(⟨.s2gate (-s) zero, [rg reg m, rg reg (m + N)]⟩ : XCmd A)]) ++
+    (if dropId && uId then [] else [⟨.interferometer (if uId then "I" else "U") mesh dropId tol, reg.take N⟩]) ++
+    (if dropId && vId then [] else [⟨.interferometer (if vId then "I" else "V") mesh dropId tol, reg.drop N⟩])
+  else []
+
+/-- `GaussianTransform._decompose`: `sq` = `(|e − 1| ≥ tol, r = |log e|, φ = arg(log e))` per mode;
+both interferometers are built with the requested mesh (after the `fix:`; before, `U2` got the default) -/
+def gaussianTransformCmds [Neg A] (d : IDefaults A) (active vacuum : Bool) (kwMesh : Option String)
+    (sq : List (Bool × A × A)) (reg : List Nat) : List (XCmd A) :=
+  let mesh := kwMesh.getD "rectangular"
+  if active then
+    (if vacuum then [] else [(⟨.interferometer "U2" mesh d.dropId d.tol, reg⟩ : XCmd A)]) ++
+    (sq.zipIdx.flatMap fun (e, n) => if e.1 then [(⟨.sgate (-e.2.1) e.2.2, [rg reg n]⟩ : XCmd A)] else []) ++
+    [⟨.interferometer "U1" mesh d.dropId d.tol, reg⟩]
+  else if vacuum then [] else [⟨.interferometer "U1" mesh d.dropId d.tol, reg⟩]
+
+/-- per-mode data of `Gaussian._decompose`: for each branch the test it makes and the values it emits -/
+structure GMode (A : Type) where
+  diagBig : Bool      -- |V_xx − 1| ≥ tol                         (pure diagonal branch)
+  diagR : A           -- |log V_xx| / 2
+  diagSmall : Bool    -- V_xx < 1
+  rotBig : Bool       -- not all(v − 1₂ < tol)                     (pure block-diagonal branch)
+  rotR : A
+  rotPhi : A
+  thBig : Bool        -- n̄ ≥ tol, n̄ from the diagonal              (thermal branch)
+  thNbar : A
+  wBig : Bool         -- |n̄| ≥ tol, n̄ from the Williamson spectrum (general branch)
+  wNbar : A
+
+/-- `Gaussian._decompose`; `thermalDiag` = `is_diag and all(D[:n] == D[n:])`; displacements `(u, u ≠ 0)` -/
+def gaussianCmds (zero pi : A) (pure isDiag isBlockDiag thermalDiag : Bool) (modes : List (GMode A))
+    (xdisp pdisp : List (A × Bool)) (reg : List Nat) : List (XCmd A) :=
+  let prep : List (XCmd A) :=
+    if pure && isDiag then
+      modes.zipIdx.map fun (g, n) =>
+        if g.diagBig then ⟨.squeezed g.diagR (if g.diagSmall then zero else pi), [rg reg n]⟩ else ⟨.vac, [rg reg n]⟩
+    else if pure && isBlockDiag then
+      modes.zipIdx.map fun (g, n) => if g.rotBig then ⟨.squeezed g.rotR g.rotPhi, [rg reg n]⟩ else ⟨.vac, [rg reg n]⟩
+    else if !pure && thermalDiag then
+      modes.zipIdx.map fun (g, n) => if g.thBig then ⟨.thermal g.thNbar, [rg reg n]⟩ else ⟨.vac, [rg reg n]⟩
+    else
+      (if !pure then modes.zipIdx.map fun (g, n) => if g.wBig then (⟨.thermal g.wNbar, [rg reg n]⟩ : XCmd A) else ⟨.vac, [rg reg n]⟩
+       else reg.map fun r => ⟨.vac, [r]⟩) ++
+      [⟨.gaussianTransform "S" pure, reg⟩]
+  prep ++ (xdisp.zipIdx.flatMap fun (u, n) => if u.2 then [(⟨.xgate u.1, [rg reg n]⟩ : XCmd A)] else []) ++
+    (pdisp.zipIdx.flatMap fun (u, n) => if u.2 then [(⟨.zgate u.1, [rg reg n]⟩ : XCmd A)] else [])
+
 end SFV.Decompose
